@@ -56,6 +56,19 @@ def gen_filter(rng, spec):
             rr = rng.random()
             out.append(n.upper() if rr < 0.25 else n.lower() if rr < 0.5 else n)
         out += [rng.choice([b"nomatch", b"build", b"BUILD", b"Sub"])] if rng.random() < 0.4 else []
+        # names that only a text-based comparison would identify with a directory of the tree: one
+        # byte >= 0x80 changed (undecodable bytes all look alike once decoded with errors replaced), or
+        # the other case of a non-ASCII letter (bytes.lower() folds ASCII only)
+        for n in names[:2]:
+            hi = [i for i, c in enumerate(n) if c >= 0x80]
+            if hi and rng.random() < 0.7:
+                i = rng.choice(hi)
+                out.append(n[:i] + bytes([n[i] ^ 0x01]) + n[i + 1 :])
+        if dnames and rng.random() < 0.5:
+            for n in dnames:
+                if b"\xc3\xa9" in n:
+                    out.append(n.replace(b"\xc3\xa9", b"\xc3\x89"))  # é -> É
+                    break
         return {"kind": "ignoreNamed" if rng.random() < 0.6 else "namedThenEmpty", "names": [hx(n) for n in out], "cs": cs}
     # glob patterns
     pats = []
@@ -93,7 +106,8 @@ def keep_files_clear(spec, pats, rel=b""):
             k = 0
             while any(fnmatch.fnmatchcase(p, pat) for pat in pats) and k < 20:
                 k += 1
-                name = b"f%d_" % k + unhx(ent[0]).lstrip(b".") + b"_x"
+                # (prefix and suffix vary with k: a pattern such as `*x` or `f*` must not match every attempt)
+                name = (b"f%d_", b"%d-", b"q%d.", b"Z%d_")[k % 4] % k + unhx(ent[0]).lstrip(b".") + (b"_x", b"~", b"-0", b".q")[(k // 4) % 4]
                 while name in used:
                     name += b"_"
                 p = name if not rel else rel + b"/" + name
